@@ -113,7 +113,7 @@ impl NotificationService for CaptureNotif {
     }
 }
 
-fn hash_of_request(method: &str, params: &Value) -> Option<[u8; 32]> {
+pub fn hash_of_request(method: &str, params: &Value) -> Option<[u8; 32]> {
     match method {
         "datastore" | "listdatastore" => {
             let k = params.get("key")?.as_array()?;
@@ -197,7 +197,7 @@ async fn serve_conn(mut stream: tokio::net::UnixStream, shared: Arc<Mutex<Shared
     }
 }
 
-async fn serve(listener: tokio::net::UnixListener, shared: Arc<Mutex<Shared>>) {
+pub async fn serve(listener: tokio::net::UnixListener, shared: Arc<Mutex<Shared>>) {
     loop {
         match listener.accept().await {
             Ok((stream, _)) => {
